@@ -46,20 +46,19 @@ theorem relChars_noP (l : List Nat) : 'p' ∉ _root_.Poetry.relChars l := by
   revert hp; decide
 
 /-- a release text holds no double quote (so `_quoted` writes it between double quotes) -/
-theorem relText_nodq (l : List Nat) : ∀ c ∈ (Version.relText l).toList, c ≠ '"' := by
-  intro c hc h
+theorem relText_nodq (l : List Nat) : ∀ c ∈ (Version.relText l).toList, c ≠ '"' ∧ c ≠ '\\' := by
+  intro c hc
   rw [_root_.Poetry.relText_toList] at hc
   have hp := plain_relChars l c hc
-  subst h
-  revert hp; decide
+  constructor <;> (intro h; subst h; revert hp; decide)
 
-theorem leafText_toList (n ops v : String) (hv : ∀ c ∈ v.toList, c ≠ '"') :
+theorem leafText_toList (n ops v : String) (hv : ∀ c ∈ v.toList, c ≠ '"' ∧ c ≠ '\\') :
     (leafText n ops v false).toList = n.toList ++ ' ' :: (ops.toList ++ ' ' :: '"' :: (v.toList ++ ['"'])) := by
   have hq1 : ("\"" : String).toList = ['"'] := by decide
   have hsp : (" " : String).toList = [' '] := by decide
   simp [leafText, String.toList_append, hq1, hsp, quoteOf_dq hv]
 
-theorem leafText_dots (n ops v : String) (hv : ∀ c ∈ v.toList, c ≠ '"') :
+theorem leafText_dots (n ops v : String) (hv : ∀ c ∈ v.toList, c ≠ '"' ∧ c ≠ '\\') :
     countChar '.' (leafText n ops v false) = countChar '.' n + countChar '.' ops + countChar '.' v := by
   have e1 : ((' ' : Char) == '.') = false := by decide
   have e2 : (('"' : Char) == '.') = false := by decide
